@@ -7,4 +7,6 @@ require (
 	pgregory.net/rapid v1.3.0
 )
 
+require golang.org/x/exp v0.0.0-20240613232115-7f521ea00fb8 // indirect
+
 replace github.com/DDP-Projekt/Kompilierer => /repo
